@@ -86,7 +86,7 @@ fn fam_bmi2text(cx: &mut Cx) {
                     json!({"r": r.iter().map(|x| json!([x.character, x.start, x.length])).collect::<Vec<Value>>()})
                 });
                 // byte-wise hash
-                for base in [0u64, 0x9E37_79B9_7F4A_7C15] {
+                for base in [0u64, 1, u64::MAX, 0x8000_0000_0000_0000, 0x9E37_79B9_7F4A_7C15] {
                     cx.case("bytehash", json!({"s": bytes_json(&s), "base": limbs(base)}), json!({"len": n}), &pls, 1, n > 0, &mut |a1, _, ps, _, _| {
                         let b = as_str(a1.place(ps, &s));
                         let r = if global { zipora::string::hash_string_bmi2(b, base) } else { p.hash_string_bmi2(b, base) };
